@@ -15,7 +15,7 @@
 //!   * `as_null` / `dummy_value` keep the variant (and array type), giving NULL / non-NULL;
 //!   * tuples: see `tuples.rs`.
 
-mod gen;
+pub mod gen;
 mod model;
 mod tuples;
 
